@@ -16,6 +16,12 @@ using sim::W;
 
 extern "C" uint64_t gdstk_verif_oas_buffer_size;
 
+extern "C" {
+FILE* __real_fopen(const char*, const char*);
+int __real_fclose(FILE*);
+size_t __real_fwrite(const void*, size_t, size_t, FILE*);
+}
+
 namespace ex {
 
 // ================================================================= status page (crash attribution)
@@ -146,6 +152,7 @@ struct Exec {
     std::map<std::string, RawHold> raws;
     std::map<std::string, WriterSess> writers;
     int step = -1;
+    bool abandoned = false;  // the simulated heap ran dry: nothing after that point is executed or judged
     std::string opname;
     sim::OpenPolicy knobs;   // benign environment knobs, persistent
     uint64_t seed = 0;
@@ -166,6 +173,7 @@ struct Exec {
 
     void viol(const std::string& vprop, const std::string& clause, const std::string& detail,
               J context = J::obj()) {
+        if (abandoned) return;
         Viol v;
         v.prop = vprop;
         v.op = opname;
@@ -237,13 +245,20 @@ struct Exec {
     // run one gdstk call under the abort guard; returns false when the run was aborted from inside
     template <class F>
     bool guarded(F f) {
+        if (abandoned) return false;
         try {
             f();
             return true;
         } catch (sim::SimAbort& a) {
             count("aborted_calls");
             W->trace.ev("abort", fnv(a.what));
-            if (a.what == "arena_exhausted") count("arena_exhausted");
+            if (a.what == "arena_exhausted") {
+                // the simulated heap never reuses an address and is finite: a plan that runs it dry says nothing
+                // about the library, and whatever the interrupted call was producing is incomplete.  The rest of
+                // the plan is not executed and nothing more is judged.
+                count("arena_exhausted");
+                abandoned = true;
+            }
             // whatever the interrupted call held open is gone with it
             std::set<FILE*> keep;
             for (auto& kv : writers)
@@ -333,6 +348,7 @@ struct Exec {
         if (op.has("chunk")) knobs.chunk = (uint64_t)op.geti("chunk");
         if (op.has("fdlimit")) W->fs.fdlimit = (int)op.geti("fdlimit");
         if (op.has("heap_junk")) W->heap.junk = op.getb("heap_junk");
+        if (op.has("heap_zero_null")) W->heap.zero_is_null = op.getb("heap_zero_null");
         if (op.has("oas_buf")) gdstk_verif_oas_buffer_size = (uint64_t)op.geti("oas_buf");
         W->fs.policy = knobs;
     }
@@ -2763,7 +2779,7 @@ struct Exec {
         W->trace.out = opt.trace_out;
         set_error_logger(W->log_sink);
         const J& ops = plan.at("ops");
-        for (size_t i = 0; i < ops.a.size(); i++) {
+        for (size_t i = 0; i < ops.a.size() && !abandoned; i++) {
             const J& op = ops.a[i];
             step = (int)i;
             opname = op.gets("op");
@@ -2836,6 +2852,7 @@ struct Exec {
         res.counters["fault_fdlimit_hits"] += f.fdlimit_hits;
         res.counters["fault_clock_moves"] += f.clock_jumps;
         res.counters["fault_heap_moves"] += f.heap_moves;
+        res.counters["fault_heap_zero_size_null"] += W->heap.zero_nulls;
         res.counters["dev_reads"] += W->fs.n_dev_read;
         res.counters["dev_writes"] += W->fs.n_dev_write;
         res.counters["opens"] += W->fs.n_open;
@@ -2843,6 +2860,18 @@ struct Exec {
         res.counters["heap_allocs"] += W->heap.st.allocs;
         res.counters["heap_live_blocks_at_end"] += W->heap.st.live_blocks;
         res.counters["log_messages"] += W->log_messages;
+    if (const char* dir = getenv("GDSIM_DUMP_DIR")) {
+            // debugging aid for a replayed plan: the simulated files as they are at the end (never set by a check)
+            for (auto& kv : W->fs.files) {
+                std::string name = kv.first;
+                for (auto& ch : name)
+                    if (ch == '/') ch = '_';
+                if (FILE* f = __real_fopen((std::string(dir) + "/" + name).c_str(), "wb")) {
+                    if (!kv.second.data.empty()) __real_fwrite(kv.second.data.data(), 1, kv.second.data.size(), f);
+                    __real_fclose(f);
+                }
+            }
+        }
         W->end_run();
     }
 };
